@@ -1113,8 +1113,8 @@ func (api *API) parseCidOrError(w http.ResponseWriter, r *http.Request) *types.P
 		api.sendResponse(w, http.StatusBadRequest, err, nil)
 		return nil
 	}
+	// MaxDepth follows the requested mode (PinWithOpts), as for paths.
 	pin := types.PinWithOpts(c, opts)
-	pin.MaxDepth = -1 // For now, all pins are recursive
 	return pin
 }
 
